@@ -8,6 +8,7 @@ import "fmt"
 
 func init() {
 	registerReplay(`^netty\.listener\.(listen|Sync|Close)#post:.*(closed_listener_never_listens|acceptor_closed_or_absent).*`, replayShutdownBeforeSync, nil)
+	registerReplay(`^netty\.listener\.Close#post:unregisters_only_on_first_close`, replayStaleCloseUnregisters, nil)
 }
 
 const countingFactory = `
@@ -93,6 +94,53 @@ func TestReplayVerif(t *testing.T) {
 			}
 			t.Fatalf("REPLAY-CONFIRMED: Listen().Async() followed by Shutdown(): the accept loop is still running 500ms after Shutdown returned, %%d live acceptor(s) (attempt %%d)", n, try)
 		}
+	}
+}
+`, countingFactory, o.Name)
+	return ".", src, true
+}
+
+// A second Close of an already closed listener, after its URL has been listened on again: the new
+// listener must stay registered, so that Shutdown still finds and closes it.
+func replayStaleCloseUnregisters(ld *Loaded, o *Obligation, m map[string]string, smt string) (string, string, bool) {
+	src := fmt.Sprintf(`package netty
+
+import (
+	"errors"
+	"sync"
+	"testing"
+	"time"
+
+	"github.com/go-netty/go-netty/transport"
+)
+%s
+// generated for %s
+func TestReplayVerif(t *testing.T) {
+	f := &countingFactory{}
+	bs := NewBootstrap(WithTransport(f))
+	old := bs.Listen("mock://127.0.0.1:0")
+	old.Close()
+	result := make(chan error, 1)
+	bs.Listen("mock://127.0.0.1:0").Async(func(err error) { result <- err }) // same URL, allowed: the old listener is closed
+	for i := 0; i < 2000 && f.live() == 0; i++ {
+		time.Sleep(time.Millisecond) // until the accept loop holds its acceptor
+	}
+	if f.live() != 1 {
+		t.Skip("the accept loop did not start")
+	}
+	old.Close() // e.g. a deferred Close of the listener that was closed explicitly before
+	bs.Shutdown()
+	select {
+	case err := <-result:
+		if err != ErrServerClosed {
+			t.Fatalf("REPLAY-CONFIRMED: accept loop ended with %%v, want ErrServerClosed", err)
+		}
+	case <-time.After(500 * time.Millisecond):
+		n := f.live()
+		for _, a := range f.acceptors {
+			a.Close()
+		}
+		t.Fatalf("REPLAY-CONFIRMED: Listen(u).Close(); Listen(u).Async(); old.Close(); Shutdown(): the second listener is still accepting 500ms after Shutdown returned (%%d live acceptor), because the stale Close removed it from the registry", n)
 	}
 }
 `, countingFactory, o.Name)
